@@ -6,6 +6,7 @@
    Final blocks only: the filter also drops a repeated final block (the fix "each final block once": `seen`). *)
 From BV Require Import Base.Prelude Model.Block Model.ForkDB Model.Forkable Model.ForkableLookups
   Model.Burst Model.Hub Model.CursorResolver Model.Joining
+  Spec.Consumer Spec.Universe Check.Burst_Check Check.C07_Check Spec.C06_Spec Spec.C09_Spec
   Spec.C07_Spec Spec.C13_Spec Spec.C07_Compose_Spec Spec.C07_Shapes_Spec Spec.C07_More_Spec.
 Local Open Scope N_scope.
 
@@ -34,3 +35,37 @@ Definition C13_stop_over_raw : Prop :=
         chain_over c (X1 ++ e :: X2) res) \/
     (* ... or the file source reported the end of the bundle of S *)
     (j_stop c <> 0 /\ (j_stop c / j_bundle c + 1) * j_bundle c <= merged_end).
+
+
+(* ------------------------------------------------------------------ the stop clause at stream level, target-cursor mode *)
+
+(* "A run that ends with stop-block-reached holds canon from the start point up to block S itself", target-cursor mode:
+   the hypotheses of c07_seamless_target_nu (Spec/C07_More_Spec.v: no agreement hypothesis between files, cursor and hub;
+   the cursor minted on the chain) and the scope hypothesis "the target cursor is not beyond the stop block".  Without it
+   the clause is false: the file source of this mode holds back the blocks between the cursor LIB and the cursor block
+   until it has seen the cursor block, it reads the files only up to the bundle of S, and with the cursor block beyond that
+   bundle the stream ends with stop-block-reached having delivered nothing above the cursor LIB (the target-mode form of
+   c13_stop_full_refuted).
+   stop_reached (Spec/C07_More_Spec.v): the chain stopped on the first passing event e numbered at or above S; e is
+   delivered iff it is numbered S; when e announces a canonical block it is block S itself if canon has a block numbered
+   S, and the consumer then holds, from start on, exactly canon up to block S - whether S is reached in the files, in the
+   hub's answer at the join (also the answer for a cursor block stored off the hub's chain) or live; or the file source
+   reported the end of the bundle of S, no canonical block is numbered S and the consumer holds the merged blocks from
+   start below S. *)
+Definition C13_stop_target : Prop :=
+  forall (U : list block) (c : jcfg) (w : world) (ps : list (N * N)) (merged_end : N) (canon forked : list block)
+         (cu : cursor) (B : block),
+    wf_b U = true -> lib_ok_b LNone U = true ->
+    hub_of_universe U c w ->
+    chain_ok canon -> incl canon U ->
+    let merged := filter (fun b => bnum b <? merged_end) canon in
+    eventual_tip c w canon ->
+    j_mode c = 2 -> j_cursor c = Some cu -> has_nu (j_filter c) (j_custom c) = true ->
+    0 < j_bundle c -> Forall (fun b => bnum b < file_bound) merged ->
+    In B canon -> bref B = cu_blk cu -> cursor_lib_on canon cu B ->
+    rn (cu_blk cu) <= j_stop c ->
+    let res := stream_run c w ps merged_end merged forked in
+    let start := run_start c w in
+    (exists b, In b canon /\ bnum b = start) ->
+    exists c', cons_fold_aside cons0 (map as_new (filter is_nu (fst res))) = Some c' /\
+               (snd res = JStop -> stop_reached c canon merged start (fst res) (cs_stack c')).
